@@ -166,6 +166,10 @@ func genMeta(r *simrt.Rand, rich bool) map[string]string {
 				k = strings.Repeat("k", 255)
 			case 3:
 				v = strings.Repeat("v", 300)
+			case 4:
+				// multi-byte characters: at the byte limit of a key, and a long value
+				k = strings.Repeat("\u00e9", 127) + "k"
+				v = strings.Repeat("\u20ac", r.Range(1, 400))
 			}
 		}
 		m[k] = v
@@ -747,8 +751,8 @@ func init() {
 			"map iteration order inside package index is one of the orders Go permits, chosen by the simulator (rewrite R3)",
 			"NaN-producing vectors (zero vector under cosine) are excluded here and exercised under C12",
 		},
-		Real:   []string{"index.Hnsw (Insert, Remove, GetVertex, Search, Save, Load)", "index/space", "utils.PriorityQueue", "math.Vector", "cluster leg: everything World III runs (services.Search/DataManager handlers, storage.Dataset fan-out and merge, partitions, raft, Badger log)"},
-		Stub:   []string{"index leg: none (update is driven as storage/partition.go drives it: lookup, remove, merge metadata, insert at old level)", "cluster leg: TCP/HTTP2, clock, process crash (as in every World III check)"},
+		Real: []string{"index.Hnsw (Insert, Remove, GetVertex, Search, Save, Load)", "index/space", "utils.PriorityQueue", "math.Vector", "cluster leg: everything World III runs (services.Search/DataManager handlers, storage.Dataset fan-out and merge, partitions, raft, Badger log)"},
+		Stub: []string{"index leg: none (update is driven as storage/partition.go drives it: lookup, remove, merge metadata, insert at old level)", "cluster leg: TCP/HTTP2, clock, process crash (as in every World III check)"},
 		Probes: []string{"entry_point_removed", "snapshot_loads", "snapshot_loads_into_used_index", "updates_applied", "final_state_has_links_to_tombstones", "searches", "empty_snapshot_loaded_into_used_index",
 			"cluster_leg_dataset_search_results_checked", "cluster_leg_dataset_searches_after_removal_or_update", "cluster_leg_node_restarts", "cluster_leg_follower_installed_snapshot"},
 		Budget: func(tier string) (int, time.Duration) {
